@@ -1,7 +1,7 @@
 (* C09 - repository operations affect exactly their own repository.
-   Statements only; proofs are in Proofs/RepoProofs.v and Proofs/DeleteFiles.v. *)
+   Statements only; proofs are in Proofs/RepoProofs.v, Proofs/DeleteFiles.v and Proofs/RenameProofs.v. *)
 From Coq Require Import List String NArith Bool.
-From DM Require Import Base.Str Gen.Paths Model.Meta Model.Bundle Model.RepoOps Proofs.RepoProofs Proofs.DeleteFiles.
+From DM Require Import Base.Str Gen.Paths Model.Meta Model.Bundle Model.RepoOps Proofs.RepoProofs Proofs.DeleteFiles Proofs.RenameProofs.
 Import ListNotations.
 Open Scope list_scope.
 
@@ -76,3 +76,15 @@ Theorem C09_delete_files_repo : forall E r paths ids m (lay : string -> list (li
     (forall k, (forall id, In id ids -> under_bundle r id k = false) -> mget k m' = mget k m).
 Proof. exact scrub_bundles_exact. Qed.
 Print Assumptions C09_delete_files_repo.
+
+(* rename: every committed bundle of the old name, stored as the file lists ls, is stored under the new
+   name with the same bundle id and the same file lists once the rename is over (what happened to the
+   old name is judged on snapshots by the check: nothing of it is left) *)
+Theorem C09_rename_moves_bundle : forall r r' w id ls,
+  noslash r = true -> noslash r' = true -> r <> r' ->
+  repo_exists r w = true -> repo_exists r' w = false ->
+  NoDup (bundles_of r w) -> (forall x, In x (bundles_of r w) -> noslash x = true) -> In id (bundles_of r w) ->
+  stored r id ls (w_meta w) -> (forall k, under_bundle r' id k = true -> mget k (w_meta w) = None) ->
+  stored r' id ls (w_meta (snd (rename_repo r r' w))).
+Proof. exact rename_moves_bundle. Qed.
+Print Assumptions C09_rename_moves_bundle.
